@@ -74,6 +74,7 @@ type frame struct {
 	mods    map[string][]modLoc
 	beforeCtr map[string]int
 	topEntry *Heap
+	goSites map[string]*goSite
 }
 
 type closureInfo struct {
